@@ -54,6 +54,17 @@ func registerProtoModel(P *Program) {
 		copy(s.elems(), vars)
 		tag := &ProtoTag{T: m.T, Snap: snap, Len: protoLen, key: key}
 		s.base.obj.tag = tag
+		if !ok {
+			// the codec is injective: encodings of two messages of one type coincide iff the messages do
+			mine := ex.encTerm(vars)
+			for okey, otag := range ex.protoTags {
+				if okey == key || !types.Identical(otag.T, m.T) {
+					continue
+				}
+				same := ex.protoContentEq(st, snap, otag.Snap)
+				ex.addAxiom(ex.ts.Eq(ex.ts.Eq(mine, ex.encTerm(ex.protoSnaps[okey])), ex.boolTerm(same)))
+			}
+		}
 		ex.protoTags[key] = tag
 		return Tuple{s, Iface{}}
 	}
